@@ -370,6 +370,7 @@ impl Prop for C17 {
         let (ylo, yhi) = shard_range(9998, shard, nshards);
         let (ylo, yhi) = (ylo as i64 + 1, yhi as i64);
         ensure((ylo - 1).max(0), yhi + 1);
+        let mut rev = Reverse::new(3);
         for y in ylo..=yhi {
           let full = env.tier == Tier::Thorough || y % 50 == (env.seed % 50) as i64 || SPECIAL_YEARS.contains(&y);
           let ys = c.year_start[y as usize] as usize;
@@ -377,16 +378,19 @@ impl Prop for C17 {
           if full {
             for i in ys..ye {
               run_case(env, out, "day", &Case::ints(&[i as i64]), &ev);
+              rev.note("day", &Case::ints(&[i as i64]));
             }
           } else if y % 10 == (env.seed % 10) as i64 {
             for i in ys..ye {
               let (_, m, d) = c.ymd(i);
               if (m == 12 && d >= 15) || (m == 1 && d <= 15) || (m == 6 && d >= 15) || (m == 7 && d <= 15) {
                 run_case(env, out, "day", &Case::ints(&[i as i64]), &ev);
+                rev.note("day", &Case::ints(&[i as i64]));
               }
             }
           }
         }
+        rev.run(env, out, &ev);
         out.set_exhaustive("day", env.tier == Tier::Thorough);
       }
       "six" => {
@@ -432,9 +436,12 @@ impl Prop for C17 {
       }
       "years" => {
         let (lo, hi) = shard_range(10001, shard, nshards);
+        let mut rev = Reverse::new(4);
         for y in lo as i64 - 1..hi as i64 - 1 {
           run_case(env, out, "year", &Case::ints(&[y]), &ev);
+          rev.note("year", &Case::ints(&[y]));
         }
+        rev.run(env, out, &ev);
         out.set_exhaustive("year", true);
       }
       _ => panic!("unknown task {}", t),
